@@ -238,6 +238,12 @@ pub async fn run_client(spec: ClientSpec) {
                                 let mut v = correct.clone();
                                 v.extend(std::iter::repeat(b'A').take(rng.range(1, 2000) as usize));
                                 Some(proto::password(&v).bytes())
+                            } else if a == "hugelen" {
+                                // a password message whose declared length asks for 2 GiB
+                                let mut v = vec![b'p'];
+                                v.extend_from_slice(&crate::gen::security::HUGE_PASSWORD.to_be_bytes());
+                                v.extend_from_slice(b"x");
+                                Some(v)
                             } else if a == "othermsg" {
                                 Some(proto::query("SELECT 'attacker' /* c9999.t0.s0 */").bytes())
                             } else if let Some(hex) = a.strip_prefix("hash:") {
